@@ -1105,7 +1105,7 @@ def c16(tier):
     q = tier == "quick"
     mc = mc_run("MC_Calls", "MC_Calls", "C16-mc")
     # the model must be able to see the failure modes the property names
-    for bad in ("MC_Calls_shared", "MC_Calls_lenfirst"):
+    for bad in ("MC_Calls_shared", "MC_Calls_lenfirst", "MC_Calls_memo", "MC_Calls_memog"):
         r = core.tlc(os.path.join(core.SPEC, "mc", "MC_Calls.tla"), os.path.join(core.SPEC, "mc", bad + ".cfg"), "C16-" + bad,
                      coverage=False, cont=False, timeout=600)
         if r.invariant_violations == 0:
@@ -1220,8 +1220,9 @@ def c16(tier):
         "states": mc.distinct + tstates, "transitions": mc.generated + ttrans,
         "traces_validated_against_impl": len(cfgs) * (2 * nthreads + 3), "evaluations": nevents, "histories": len(hist_ids),
         "distinct_nontrivial": len(inputs) * 7,
-        "rule": "MC_Calls: 3 threads x 2 inputs x every initial stack content x every interleaving, up to 2 calls per thread; the two "
-                "failure designs (shared scratch buffer, length set before the cells are written) must each violate an invariant. "
+        "rule": "MC_Calls: 3 threads x 2 inputs x every initial stack content x every interleaving, up to 2 calls per thread; the four "
+                "failure designs (shared scratch buffer, length set before the cells are written, per-thread and global one-entry "
+                "memo keyed by a prefix of the input) must each violate an invariant. "
                 "CF: every input x 7 iterator shapes (slice, chain, filter, skip/step_by, VecDeque ring, hand-written iterator with "
                 "size_hint (0,None), rev.rev) after stack-poisoning calls, plus 8 concurrent threads each walking all inputs in its own "
                 "order with rotating shapes; histories of RELATED inputs back to back on one thread (19-digit prefix / just below / "
